@@ -4,7 +4,7 @@ import "verif/harness/core"
 
 // C10: clean and persistent sessions.
 func C10(c *core.Ctx) {
-	c.Rep.Bound = "HIST: connect(CleanSession 0/1) / subscribe / unsubscribe / disconnect / cut over two client ids and two connections plus a witness publisher, BFS de-duplicated on the model state, depth 6 (quick) / 8 (thorough); a second run with the server QoS cap at 1"
+	c.Rep.Bound = "HIST: connect(CleanSession 0/1) / subscribe / unsubscribe / disconnect / cut over two client ids and two connections plus a witness publisher, BFS de-duplicated on the model state, depth 6 (quick) / 8 (thorough); a second run with the server QoS cap at 1; every sequence without de-duplication to depth 8 (quick) / 10 (thorough) over a one-client alphabet (connect clean/persistent, subscribe, unsubscribe, disconnect, cut, probe)"
 	c.Rep.Rule = "after every action the CONNACK (SessionPresent), SUBACK and the deliveries of probe publishes are compared with the session model; distinct = canonical model states (stored sessions with their filters and QoS, live connections)"
 	px := func(client, cid string, clean bool) Action {
 		return Action{Kind: "connect", Client: client, Opts: ConnectOpts{ClientID: cid, Clean: clean, KeepAlive: 600}}
@@ -38,6 +38,27 @@ func C10(c *core.Ctx) {
 		if !c.Thorough() {
 			break
 		}
+	}
+	if c.HasViolation() || c.Expired() {
+		return
+	}
+	// every sequence without de-duplication over a reduced alphabet (one client id):
+	// state the implementation keeps outside what the state key shows (caches,
+	// flags in the session object) cannot hide behind an equal key here
+	seqOps := []Action{
+		px("X", "a", false), px("X", "a", true),
+		sub("X", 1, "t/1", 1), unsub("X", 3, "t/1"),
+		{Kind: "disconnect", Client: "X"}, {Kind: "cut", Client: "X"},
+		pub("W", "t/1", 1, 41, "probe"),
+	}
+	sd := 8
+	if c.Thorough() {
+		sd = 10
+	}
+	seq := &HistSpec{Name: "sessions-sequences", Ops: seqOps, Depth: sd, Dedup: false, Comps: comps, Prefix: []Action{px("W", "w", true)}}
+	seq.Search(c)
+	if c.HasViolation() || c.Expired() {
+		return
 	}
 	c10sched(c)
 }
